@@ -16,4 +16,16 @@ TEXTS = {
         "note": "trusted: Lean kernel (axioms propext, Quot.sound, Classical.choice only, audited per theorem); the hand-written transliteration of src/path.rs:24-83 (tied by the path stream, bounded differential execution); str primitives modelled by list functions; Arc::ptr_eq modelled as id equality",
         "technique": "Lean 4 proof over hand-written model + differential correspondence check",
     },
+    "C14": {
+        "level": "Lean 4 theorems: for every content, position, buffer size and offset the MemoryFS read handle answers read/seek exactly as std's cursor specification (seek before start is an error and leaves the handle alone, past the end allowed, reads there return 0 bytes, bytes in order and in range), never panics; the write cursor laws (length, placement, zero-fill of the gap, tail preserved, append at end) and exact publication on flush/drop. Tied to the code by the handle stream: every return value of every handle call on 7 backend/adapter configurations is compared with the Lean model (CORR) and with std::io::Cursor run in-process on the same script (PROP).",
+        "design_ref": "DESIGN.md §6 C14",
+        "note": "trusted: Lean kernel + audited axioms; hand-written model of ReadableFile/WritableFile (src/impls/memory.rs) tied by the handle stream; std::io::Cursor/File/io::copy modelled from their documentation; PhysicalFS and EmbeddedFS handles are std types (assumption checked by the stream only)",
+        "technique": "Lean 4 proof over hand-written model + differential correspondence check",
+    },
+    "C04": {
+        "level": "Lean 4 theorems composing the cursor laws into file contents: chunked reads with any sequence of buffer sizes return the content without loss or reordering, a create session buffers exactly the written bytes, append continues the existing bytes, flush and drop publish exactly the buffer and a reader opened afterwards sees it, metadata reports that length, directories report 0, io::copy is the identity. Tied to the code by the handle stream on memory, physical, altroot and overlay (copy-up) configurations with an independent std::io::Cursor oracle.",
+        "design_ref": "DESIGN.md §6 C04",
+        "note": "trusted: as C14; byte storage of PhysicalFS is the host file system (assumption, compared by the stream); overlay copy-up is covered by the stream and by the overlay model's correspondence, the adapter-level theorem is in C09",
+        "technique": "Lean 4 proof over hand-written model + differential correspondence check",
+    },
 }
